@@ -62,7 +62,10 @@ pub fn additional_of(p: &Pool, op: Op) -> Option<usize> {
         Push(_, c) | Insert(_, _, c) => CHARS[c as usize].len_utf8(),
         PushStr(_, s) | InsertStr(_, _, s) => texts(|t| t.strs[s as usize].len()),
         PushAscii(_, n) => n as usize,
-        AddAssign(_) | Add(_) => 2,
+        AddAssign(_) | Add(_) | WriteFmt(_) => 2,
+        ExtendChars(_) | ExtendFiltered(_) => 4,
+        ExtendStrs(_) => 3,
+        ExtendLean(_, s) => p.m[s as usize].as_ref().map_or(0, |m| m.len()),
         Reserve(_, k) => texts(|t| t.reserves[k as usize]),
         _ => {
             let _ = p;
@@ -430,7 +433,8 @@ pub fn c11(rec: &StepRec, _p: &Pool, out: &mut Vec<Viol>) {
                 v("reserve-exclusive", format!("after reserve({n}) the handle does not own its storage exclusively ({:?}, rc {})", b.kind, b.rc));
             }
         }
-        Push(i, _) | PushStr(i, _) | Insert(i, _, _) | InsertStr(i, _, _) | AddAssign(i) | PushAscii(i, _) => {
+        Push(i, _) | PushStr(i, _) | Insert(i, _, _) | InsertStr(i, _, _) | AddAssign(i) | PushAscii(i, _) | WriteFmt(i) | ExtendChars(i) | ExtendStrs(i) | ExtendFiltered(i) => {
+            // (appends through write!/extend are appends too: the whole appended text counts)
             let add = rec.additional.unwrap();
             let (a, b) = (rec.pre[i as usize].as_ref().unwrap(), rec.post[i as usize].as_ref().unwrap());
             let exclusive = a.kind == Kind::Inline || (a.kind == Kind::Heap && a.rc == 1);
